@@ -253,7 +253,7 @@ def native_sections(repo, tier):
         o = ground_obligation(oid, ok, "" if ok else f"{json.dumps(res.get('inputs'))[:300]} -> {str(res.get('observed'))[:200]} (expected {str(res.get('expected'))[:200]})",
                               "replay/C03.py", kind="bounded", backend="native-replay")
         o["bounded"] = True
-        o["bound"] = "documents of <= 5 paragraphs over {h1 (fixed text), h2 (fixed text), heading without text, body paragraph, empty paragraph}"
+        o["bound"] = "documents of <= 5 paragraphs over {h1 (fixed text), h2 (fixed text), heading without text, body paragraph (distinct text), body paragraph (repeated text), empty paragraph}"
         if excl.get(cls):
             o["exclusions"] = excl[cls]
         obls.append(o)
